@@ -15,10 +15,10 @@ import time
 import traceback
 
 ROOT = os.path.dirname(os.path.dirname(os.path.abspath(__file__)))
-EVIDENCE_DIR = os.path.join(ROOT, "evidence")
+EVIDENCE_DIR = os.path.join(ROOT, "evidence" if "VERIF_REPO" not in os.environ else "evidence_scratch")
 REPLAY_DIR = os.path.join(EVIDENCE_DIR, "replay")
 KNOWN = os.path.join(ROOT, "known_findings.json")
-REPO = "/repo"
+REPO = os.environ.get("VERIF_REPO", "/repo")   # checks always run against /repo; the override only serves scratch evaluation of seeded changes
 
 
 def seed() -> int:
